@@ -36,7 +36,17 @@ type c12Op struct {
 	Form int    `json:"form,omitempty"` // how the name / statement is spelled
 }
 
+// c12Cfg: the sandbox part of one Execute call's Config
+type c12Cfg struct {
+	NoExec   bool `json:"no_exec"`
+	NoWrites bool `json:"no_writes"`
+	NoReads  bool `json:"no_reads"`
+	Hook     bool `json:"hook"`
+	ShellOK  bool `json:"shell_ok"`
+}
+
 type c12Case struct {
+	Reuse    []c12Cfg `json:"reuse,omitempty"` // earlier Execute calls on the SAME Interpreter (same program), each with its own config
 	NoExec   bool     `json:"no_exec"`
 	NoWrites bool     `json:"no_writes"`
 	NoReads  bool     `json:"no_reads"`
@@ -183,6 +193,7 @@ func (w *lockedWriter) Write(p []byte) (int, error) {
 	w.mu.Unlock()
 	return len(p), nil
 }
+func (w *lockedWriter) reset()         { w.mu.Lock(); w.b = nil; w.mu.Unlock() }
 func (w *lockedWriter) String() string { w.mu.Lock(); defer w.mu.Unlock(); return string(w.b) }
 
 type c12Event struct {
@@ -206,6 +217,7 @@ type c12Obs struct {
 	After   map[string]string
 	Src     string
 	ForkErr int
+	Stale   []string // opens that went to the OpenFile function of an EARLIER Execute call
 }
 
 func c12List(d string) map[string]string {
@@ -254,41 +266,79 @@ func c12Run(cs *c12Case) (obs c12Obs) {
 		args[i] = c12Real(d, a)
 	}
 	sent := d + "/SENT"
-	cfg := &interp.Config{
-		Stdin: stdin, Output: &out, Error: &errw, Environ: []string{}, Vars: vars, Args: args, Funcs: funcs,
-		NoExec: cs.NoExec, NoFileWrites: cs.NoWrites, NoFileReads: cs.NoReads,
-		ShellCommand: []string{"/bin/sh", "-c", `printf '%s\n' "$0" >> ` + sent + `; exec /bin/sh -c "$0"`},
-	}
-	if !cs.ShellOK {
-		cfg.ShellCommand = []string{d + "/no-such-shell", "-c"}
-	}
-	if cs.Hook {
-		cfg.OpenFile = func(name string, flag int, perm os.FileMode) (*os.File, error) {
-			f, err := os.OpenFile(name, flag, perm)
-			mode := "rd"
-			if flag&(os.O_WRONLY|os.O_RDWR|os.O_CREATE|os.O_TRUNC|os.O_APPEND) != 0 {
-				mode = "ap"
-				if flag&os.O_TRUNC != 0 {
-					mode = "tr"
-				}
-				if flag&os.O_APPEND == 0 && flag&os.O_TRUNC == 0 {
-					mode = "wr?"
-				}
-			}
-			mu.Lock()
-			obs.Events = append(obs.Events, c12Event{Name: c12Sym(d, name), Mode: mode, OK: err == nil})
-			mu.Unlock()
-			return f, err
+	current := 0 // index of the Execute call in progress
+	mkCfg := func(k int, c c12Cfg, in *os.File) *interp.Config {
+		cfg := &interp.Config{
+			Stdin: in, Output: &out, Error: &errw, Environ: []string{}, Vars: vars, Args: args, Funcs: funcs,
+			NoExec: c.NoExec, NoFileWrites: c.NoWrites, NoFileReads: c.NoReads,
+			ShellCommand: []string{"/bin/sh", "-c", `printf '%s\n' "$0" >> ` + sent + `; exec /bin/sh -c "$0"`},
 		}
+		if !c.ShellOK {
+			cfg.ShellCommand = []string{d + "/no-such-shell", "-c"}
+		}
+		if c.Hook {
+			cfg.OpenFile = func(name string, flag int, perm os.FileMode) (*os.File, error) {
+				f, err := os.OpenFile(name, flag, perm)
+				mode := "rd"
+				if flag&(os.O_WRONLY|os.O_RDWR|os.O_CREATE|os.O_TRUNC|os.O_APPEND) != 0 {
+					mode = "ap"
+					if flag&os.O_TRUNC != 0 {
+						mode = "tr"
+					}
+					if flag&os.O_APPEND == 0 && flag&os.O_TRUNC == 0 {
+						mode = "wr?"
+					}
+				}
+				mu.Lock()
+				if k != current {
+					obs.Stale = append(obs.Stale, fmt.Sprintf("run %d's OpenFile called during run %d: %s", k, current, c12Sym(d, name)))
+				} else {
+					obs.Events = append(obs.Events, c12Event{Name: c12Sym(d, name), Mode: mode, OK: err == nil})
+				}
+				mu.Unlock()
+				return f, err
+			}
+		}
+		return cfg
 	}
-	obs.Before = c12List(d)
+	resetDir := func() {
+		ents, _ := os.ReadDir(d)
+		for _, e := range ents {
+			os.RemoveAll(d + "/" + e.Name())
+		}
+		for _, f := range c12InFiles {
+			os.WriteFile(d+"/"+f, []byte("S_"+f+"\n"), 0o644)
+		}
+		os.WriteFile(d+"/stdin.txt", []byte("STDIN1\nSTDIN2\n"), 0o644)
+	}
 	func() {
 		defer func() {
 			if r := recover(); r != nil {
 				obs.Panic = fmt.Sprint(r)
 			}
 		}()
-		_, err := interp.ExecProgram(prog, cfg)
+		p, err := interp.New(prog)
+		if err != nil {
+			obs.Err = "interp.New: " + err.Error()
+			return
+		}
+		// earlier Execute calls on the same Interpreter, each with its own sandbox configuration
+		for k, c := range cs.Reuse {
+			current = k
+			in, _ := os.Open(d + "/stdin.txt")
+			p.Execute(mkCfg(k, c, in))
+			in.Close()
+			resetDir()
+		}
+		mu.Lock()
+		obs.Events = nil
+		current = len(cs.Reuse)
+		mu.Unlock()
+		out.reset()
+		errw.reset()
+		obs.Before = c12List(d)
+		cfg := mkCfg(len(cs.Reuse), c12Cfg{cs.NoExec, cs.NoWrites, cs.NoReads, cs.Hook, cs.ShellOK}, stdin)
+		_, err = p.Execute(cfg)
 		if err != nil {
 			obs.Err = err.Error()
 		}
@@ -534,8 +584,13 @@ func c12Oracle(cs *c12Case, obs *c12Obs) (bad []c12Verdict, attempts int, swallo
 			}
 		}
 	}
-	// (5) an attempt is an error at that operation
+	for _, st := range obs.Stale {
+		bad = append(bad, c12Verdict{What: "a reused Interpreter opened a file through the OpenFile function of an earlier Execute call, not the one configured for this run", Got: st})
+	}
+	// (5) an attempt is an error at that operation; (6) standard input stays available, under every flag setting
 	open := map[string]bool{}
+	stdinUsed := false
+	mainIdx := len(cs.Begin)
 	regularOperands := 0
 	for _, a := range cs.Args {
 		if a != "" && a != "-" {
@@ -579,6 +634,42 @@ func c12Oracle(cs *c12Case, obs *c12Obs) (bad []c12Verdict, attempts int, swallo
 			} else if cs.NoReads && failing == i && c12ErrCode(obs.Err) == "noFileReads" {
 				attempts++
 			}
+		}
+		if op.K == "gf" && op.N == "-" && !open["-"] {
+			if failing == i {
+				bad = append(bad, c12Verdict{What: fmt.Sprintf("operation %d: getline < \"-\" (standard input) ended the run with an error", i), Got: obs.Err, Want: "standard input, also under the name \"-\", stays available"})
+			} else if per[i].Done && !stdinUsed && i < mainIdx && !(per[i].R == 1 && strings.HasPrefix(per[i].V, "STDIN")) {
+				bad = append(bad, c12Verdict{What: fmt.Sprintf("operation %d: the first getline < \"-\" did not deliver the first line of standard input", i),
+					Got: fmt.Sprintf("returned %v, value %q", per[i].R, per[i].V), Want: "1, STDIN1"})
+			}
+			stdinUsed = true
+		}
+		if op.K == "gl" {
+			stdinUsed = true
+		}
+		if op.K == "main" {
+			wantsStdin, onlyEmpty := false, true
+			for _, a := range cs.Args {
+				if a == "-" {
+					wantsStdin = true
+				}
+				if a != "" {
+					onlyEmpty = false
+				}
+			}
+			if per[i].Done && !stdinUsed && (wantsStdin || onlyEmpty) {
+				got := false
+				for _, r := range per[i].Recs {
+					if strings.HasSuffix(r, ":STDIN1") {
+						got = true
+					}
+				}
+				if !got {
+					bad = append(bad, c12Verdict{What: "the pattern-action loop did not read standard input (operand \"-\", or no file operand at all)",
+						Got: strings.Join(per[i].Recs, " | "), Want: "a record STDIN1"})
+				}
+			}
+			stdinUsed = true
 		}
 		if denied != "" {
 			attempts++
@@ -881,6 +972,36 @@ func c12Corpus() []c12Case {
 			}
 		}
 	}
+	// a reused Interpreter: earlier Execute calls with other sandbox settings; the run under test is judged by its own config
+	reuseOps := []c12Op{{K: "gt", N: "o0", Form: 1}, {K: "close", N: "o0"}, {K: "gf", N: "in1", Form: 2}, {K: "gf", N: "-", Form: 1}}
+	for mask := 0; mask < 8; mask++ {
+		for _, hook := range []bool{true, false} {
+			for _, prev := range [][]c12Cfg{
+				{{Hook: false, ShellOK: true}},                                 // first Execute without OpenFile, this one maybe with
+				{{Hook: true, ShellOK: true}},                                  // first with a custom OpenFile, this one maybe without
+				{{NoExec: true, NoWrites: true, NoReads: true, ShellOK: true}}, // first fully confined
+				{{Hook: true, ShellOK: false}, {NoReads: true, Hook: false, ShellOK: true}},
+			} {
+				cs := c12Case{Reuse: prev, Hook: hook, ShellOK: true, Begin: reuseOps, Args: []string{"in0"},
+					End: []c12Op{{K: "pipe", N: "cw0"}, {K: "app", N: "o1", Form: 3}}}
+				c12Flags(&cs, mask)
+				res = append(res, cs)
+			}
+		}
+	}
+	// standard input stays available: getline < "-" (name computed), operand "-", no operand — all flag combinations
+	for mask := 0; mask < 8; mask++ {
+		for form := 0; form < 5; form++ {
+			cs := c12Case{Hook: form%2 == 0, ShellOK: true, Begin: []c12Op{{K: "gf", N: "-", Form: form}, {K: "gf", N: "-", Form: form + 1}}}
+			c12Flags(&cs, mask)
+			res = append(res, cs)
+		}
+		for _, args := range [][]string{{}, {"-"}, {"", "-"}, {""}} {
+			cs := c12Case{Hook: true, ShellOK: true, Args: args, End: []c12Op{{K: "gf", N: "-"}}}
+			c12Flags(&cs, mask)
+			res = append(res, cs)
+		}
+	}
 	// the shell cannot be started
 	for mask := 0; mask < 8; mask++ {
 		cs := c12Case{Hook: true, ShellOK: false, Begin: []c12Op{{K: "pipe", N: "cw0"}, {K: "gc", N: "cr0"}, {K: "sys", N: "sy0"}, {K: "close", N: "cw0"}, {K: "gt", N: "cr0", Form: 1}}}
@@ -957,6 +1078,10 @@ func c12Random(c *vh.Ctx) c12Case {
 		}
 		return ops
 	}
+	for k, n := 0, []int{0, 0, 1, 1, 2}[r.Intn(5)]; k < n; k++ {
+		m := r.Intn(8)
+		cs.Reuse = append(cs.Reuse, c12Cfg{NoExec: m&1 != 0, NoWrites: m&2 != 0, NoReads: m&4 != 0, Hook: r.Intn(2) == 0, ShellOK: r.Intn(6) != 0})
+	}
 	cs.Begin = gen(r.Intn(7), true)
 	cs.End = gen(r.Intn(5), true)
 	operandPool := []string{"in0", "in2", "in0", "m0", "-", ""}
@@ -971,7 +1096,8 @@ func c12Random(c *vh.Ctx) c12Case {
 func main() { vh.Main("C12", runC12) }
 
 func runC12(c *vh.Ctx) {
-	c.Rule("a case = flags (8 combinations) x custom OpenFile present/absent x shell startable/not x ARGV operands x operations in BEGIN " +
+	c.Rule("a case = 0–2 earlier Execute calls on the same Interpreter with their own sandbox settings, then the run under test: " +
+		"flags (8 combinations) x custom OpenFile present/absent x shell startable/not x ARGV operands x operations in BEGIN " +
 		"and END drawn from print >, print >>, print |, getline <, cmd | getline, system, un-redirected getline, close, fflush (and the " +
 		"pattern-action loop over the operands); names come from a small pool (new files, existing files, a missing file, an unwritable " +
 		"path, \"-\", /dev/stdout, /dev/stderr, \"\", commands) and are re-used across roles; every name is computed at run time in one of " +
@@ -996,7 +1122,7 @@ func runC12(c *vh.Ctx) {
 	} else {
 		cases = c12Corpus()
 		nCorpus := len(cases)
-		for i, n := 0, c.N(700, 8000); i < n; i++ {
+		for i, n := 0, c.N(500, 8000); i < n; i++ {
 			cases = append(cases, c12Random(c))
 		}
 		c.Note(fmt.Sprintf("%d corpus cases (every I/O form x 8 flag combinations x hook present/absent, BEGIN and END placement), %d generated", nCorpus, len(cases)-nCorpus))
@@ -1073,6 +1199,7 @@ func runC12(c *vh.Ctx) {
 		c.OracleCase()
 		c.Hit(fmt.Sprintf("flags:exec=%s,writes=%s,reads=%s", c12B(cs.NoExec), c12B(cs.NoWrites), c12B(cs.NoReads)))
 		c.Hit("hook:" + c12B(cs.Hook))
+		c.Hit(fmt.Sprintf("earlier-executes-on-same-interpreter:%d", len(cs.Reuse)))
 		c.Hit("shell_ok:" + c12B(cs.ShellOK))
 		c.Hit(fmt.Sprintf("operands:%d", len(cs.Args)))
 		for _, op := range cs.ops() {
